@@ -397,6 +397,128 @@ impl HllSketch {
     }
 }
 
+/// Verification hook: a plain dump of the internal state of an [`HllSketch`]
+/// (feature `verif-hooks`). Nothing here changes behaviour.
+#[cfg(feature = "verif-hooks")]
+#[derive(Debug, Clone, PartialEq)]
+pub struct VerifHllState {
+    /// 0 = List, 1 = Set, 2 = Array (HLL) mode.
+    pub mode: u8,
+    /// Configured lg_k.
+    pub lg_config_k: u8,
+    /// Target type: 0 = Hll4, 1 = Hll6, 2 = Hll8.
+    pub target_type: u8,
+    /// lg of the coupon container size (List/Set modes), 0 otherwise.
+    pub lg_size: usize,
+    /// Number of stored coupons (List/Set modes), 0 otherwise.
+    pub len: usize,
+    /// Raw coupon table in storage order, 0 = empty (List/Set modes).
+    pub raw_coupons: Vec<u32>,
+    /// True register values, one per slot (Array modes).
+    pub registers: Vec<u8>,
+    /// `cur_min` (Hll4), 0 for Hll6/Hll8.
+    pub cur_min: u8,
+    /// `num_at_cur_min` (Hll4) or `num_zeros` (Hll6/Hll8).
+    pub num_at_cur_min: u32,
+    /// lg of the aux table size (Hll4 with an aux map), 0 otherwise.
+    pub aux_lg_size: u8,
+    /// Aux map entry count as stored by the map.
+    pub aux_count: u32,
+    /// Raw aux table in storage order, 0 = empty.
+    pub aux_raw: Vec<u32>,
+    /// HIP accumulator.
+    pub hip_accum: f64,
+    /// kxq0 register.
+    pub kxq0: f64,
+    /// kxq1 register.
+    pub kxq1: f64,
+    /// Out-of-order flag.
+    pub out_of_order: bool,
+}
+
+#[cfg(feature = "verif-hooks")]
+impl HllSketch {
+    /// Verification hook: feed a raw coupon through the same internal path that
+    /// [`HllSketch::update`] uses after hashing.
+    pub fn verif_update_with_coupon(&mut self, coupon: u32) {
+        self.update_with_coupon(coupon);
+    }
+
+    /// Verification hook: dump the internal state without going through the serializer.
+    pub fn verif_state(&self) -> VerifHllState {
+        let mut st = VerifHllState {
+            mode: 0,
+            lg_config_k: self.lg_config_k,
+            target_type: self.target_type() as u8,
+            lg_size: 0,
+            len: 0,
+            raw_coupons: vec![],
+            registers: vec![],
+            cur_min: 0,
+            num_at_cur_min: 0,
+            aux_lg_size: 0,
+            aux_count: 0,
+            aux_raw: vec![],
+            hip_accum: 0.0,
+            kxq0: 0.0,
+            kxq1: 0.0,
+            out_of_order: false,
+        };
+        let k = 1u32 << self.lg_config_k;
+        match &self.mode {
+            Mode::List { list, .. } => {
+                st.mode = 0;
+                st.lg_size = list.container().lg_size();
+                st.len = list.container().len();
+                st.raw_coupons = list.container().coupons.to_vec();
+            }
+            Mode::Set { set, .. } => {
+                st.mode = 1;
+                st.lg_size = set.container().lg_size();
+                st.len = set.container().len();
+                st.raw_coupons = set.container().coupons.to_vec();
+            }
+            Mode::Array4(arr) => {
+                st.mode = 2;
+                st.registers = (0..k).map(|s| arr.get(s)).collect();
+                let (cur_min, num_at_cur_min, aux, est) = arr.verif_parts();
+                st.cur_min = cur_min;
+                st.num_at_cur_min = num_at_cur_min;
+                if let Some((lg, count, raw)) = aux {
+                    st.aux_lg_size = lg;
+                    st.aux_count = count;
+                    st.aux_raw = raw;
+                }
+                st.hip_accum = est.hip_accum();
+                st.kxq0 = est.kxq0();
+                st.kxq1 = est.kxq1();
+                st.out_of_order = est.is_out_of_order();
+            }
+            Mode::Array6(arr) => {
+                st.mode = 2;
+                st.registers = (0..k).map(|s| arr.get(s)).collect();
+                let (num_zeros, est) = arr.verif_parts();
+                st.num_at_cur_min = num_zeros;
+                st.hip_accum = est.hip_accum();
+                st.kxq0 = est.kxq0();
+                st.kxq1 = est.kxq1();
+                st.out_of_order = est.is_out_of_order();
+            }
+            Mode::Array8(arr) => {
+                st.mode = 2;
+                st.registers = (0..k).map(|s| arr.get(s)).collect();
+                let (num_zeros, est) = arr.verif_parts();
+                st.num_at_cur_min = num_zeros;
+                st.hip_accum = est.hip_accum();
+                st.kxq0 = est.kxq0();
+                st.kxq1 = est.kxq1();
+                st.out_of_order = est.is_out_of_order();
+            }
+        }
+        st
+    }
+}
+
 fn promote_container_to_set(container: &Container, hll_type: HllType) -> Mode {
     let mut set = HashSet::default();
     for coupon in container.iter() {
